@@ -187,6 +187,17 @@ func (g *gen) noneTx() *types.Transaction {
 	return g.finish(&types.Transaction{Payload: payload}, execer, pool()[g.sender()], false)
 }
 
+// gatedTx names one of the synthetic height-gated dapps (core.go: GatedDapps).
+func (g *gen) gatedTx(name string) *types.Transaction {
+	payload := make([]byte, 1+g.r.Intn(12))
+	g.r.Read(payload)
+	from := g.sender()
+	for !g.rich[from] {
+		from = g.sender()
+	}
+	return g.finish(&types.Transaction{Payload: payload}, name, pool()[from], false)
+}
+
 func (g *gen) manageTx() *types.Transaction {
 	from := pool()[1]
 	if g.r.Intn(4) == 0 {
@@ -231,9 +242,18 @@ func (g *gen) group() []*types.Transaction {
 	return grp.Txs
 }
 
-func (g *gen) block(n int, first bool) []string {
+// block draws the transactions of the block at the given height.  Main-list blocks name a gated dapp only from its
+// enable height on (so that fresh executions never see the name earlier); prior-activity blocks name them at any height.
+func (g *gen) block(n int, height int64, priorActivity bool) []string {
 	var txs []*types.Transaction
 	kinds := map[string]int{}
+	first := height == 1
+	var gated []string
+	for _, name := range []string{"c13gate2", "c13gate3"} {
+		if priorActivity || height >= GatedDapps[name] {
+			gated = append(gated, name)
+		}
+	}
 	if first {
 		// fund a few accounts from the genesis account so that later senders can pay fees
 		p := pool()
@@ -251,6 +271,9 @@ func (g *gen) block(n int, first bool) []string {
 	}
 	for len(txs) < n {
 		switch k := g.r.Intn(100); {
+		case k < 6 && len(gated) > 0:
+			txs = append(txs, g.gatedTx(gated[g.r.Intn(len(gated))]))
+			kinds["gated"]++
 		case k < 55:
 			tx, _ := g.coinsTx(false, false)
 			txs = append(txs, tx)
@@ -275,6 +298,19 @@ func (g *gen) block(n int, first bool) []string {
 			kinds["none"]++
 		}
 	}
+	for _, name := range gated { // every gated dapp that may appear does appear, even in small blocks
+		var slots []int // positions that do not split a group: before a single transaction or a group head, or the end
+		for p, tx := range txs {
+			if tx.GroupCount == 0 || bytes.Equal(tx.Hash(), tx.Header) {
+				slots = append(slots, p)
+			}
+		}
+		at := append(slots, len(txs))[g.r.Intn(len(slots)+1)]
+		txs = append(txs, nil)
+		copy(txs[at+1:], txs[at:])
+		txs[at] = g.gatedTx(name)
+		kinds["gated"]++
+	}
 	if g.r.Intn(10) == 0 {
 		// one signature that does not verify: only the verifier path looks at signatures, and must say ErrSign everywhere
 		if tx := txs[g.r.Intn(len(txs))]; tx.GroupCount == 0 {
@@ -290,6 +326,10 @@ func (g *gen) block(n int, first bool) []string {
 	return hexes
 }
 
+// raisedForks are system forks consulted on the block execution path; a case may move one or two of them from height 0
+// to height 2 or 3.
+var raisedForks = []string{"ForkExecRollback", "ForkResetTx0", "ForkStateDBSet", "ForkCacheDriver", "ForkTxGroup", "ForkLocalDBAccess", "ForkExecKey", "ForkCheckTxDup"}
+
 func blockSize(r *rand.Rand) int {
 	switch k := r.Intn(10); {
 	case k < 3:
@@ -304,15 +344,22 @@ func blockSize(r *rand.Rand) int {
 func genCase(seed int64) (*CaseFile, []string) {
 	r := rand.New(rand.NewSource(seed))
 	c := &CaseFile{Cfg: Variant{Stat: r.Intn(2) == 0, AddrFee: r.Intn(2) == 0, Free: r.Intn(4) == 0}}
+	if r.Intn(2) == 0 {
+		c.Cfg.Forks = map[string]int64{}
+		for i := 1 + r.Intn(2); i > 0; i-- {
+			c.Cfg.Forks[raisedForks[r.Intn(len(raisedForks))]] = int64(2 + r.Intn(2))
+		}
+	}
 	cfg := NewConfig(c.Cfg)
 	g := &gen{r: r, cfg: cfg, rich: map[int]bool{0: true}}
-	nb := 1 + r.Intn(3)
+	nb := []int{1, 2, 2, 2, 3, 3, 3}[r.Intn(7)]
 	for i := 0; i < nb; i++ {
-		c.Blocks = append(c.Blocks, g.block(blockSize(r), i == 0))
+		c.Blocks = append(c.Blocks, g.block(blockSize(r), int64(i+1), false))
 	}
 	desc := g.desc
+	// prior-activity blocks: Warm[i%2] is used at every height, Warm[0] also funds accounts from the genesis account
 	w := &gen{r: r, cfg: cfg, rich: map[int]bool{0: true}}
-	c.Warm = append(c.Warm, w.block(5+r.Intn(100), true), w.block(1+r.Intn(30), false))
+	c.Warm = append(c.Warm, w.block(5+r.Intn(100), 1, true), w.block(1+r.Intn(30), 2, true))
 	return c, desc
 }
 
@@ -333,7 +380,7 @@ func runChild(casePath string, s execSpec) (*Result, string) {
 	bin := filepath.Join(os.Getenv("VERIF_BIN"), "c13_exec")
 	args := []string{"-c", fmt.Sprintf("0-%d", s.CPUs-1), bin, casePath}
 	if s.Warm {
-		args = append(args, "warm")
+		args = append(args, ModeWarm)
 	}
 	ctx, cancel := context.WithTimeout(context.Background(), childTimeout)
 	defer cancel()
@@ -444,13 +491,14 @@ func checkCase(t *testing.T, test string, seed int64, c *CaseFile, desc []string
 	for i := range ss {
 		names[i] = ss[i].Name
 	}
-	// this long-running process executes the case too, concurrently with the children
-	res, err := Run(c, false)
+	// this long-running process executes the case too, concurrently with the children, with mempool-style EventCheckTx
+	// traffic on the node as its prior activity
+	res, err := Run(c, ModeCheck)
 	if err != nil {
 		lib.Inconclusive("in-process execution: %v", err)
 	}
 	wg.Wait()
-	results, died, names = append(results, res), append(died, ""), append(names, "long-running-test-process")
+	results, died, names = append(results, res), append(died, ""), append(names, "long-running-test-process+checktx")
 
 	rendering := map[string]interface{}{"seed": seed, "cfg": c.Cfg, "blocks": desc, "executions": names, "case": c}
 	nDied := 0
@@ -495,6 +543,8 @@ func classify(res *Result, c *CaseFile, desc []string, seed int64) {
 		tot.GroupTx += b.Counts.GroupTx
 		tot.DupKeys += b.Counts.DupKeys
 		tot.LocalAdd += b.Counts.LocalAdd
+		tot.GatedTx += b.Counts.GatedTx
+		tot.GatedOk += b.Counts.GatedOk
 		if b.Counts.MaxWriter > tot.MaxWriter {
 			tot.MaxWriter = b.Counts.MaxWriter
 		}
@@ -528,6 +578,9 @@ func classify(res *Result, c *CaseFile, desc []string, seed int64) {
 	mark(tot.DupKeys > 0, "DelDupKey_collapsed")
 	mark(big > 0, "block>80_kept_txs")
 	mark(verifierOK > 0, "verifier_path_ok")
+	mark(tot.GatedOk > 0, "gated_dapp_executed_by_own_driver")
+	mark(tot.GatedTx > tot.GatedOk, "gated_dapp_tx_not_executed")
+	mark(len(c.Cfg.Forks) > 0, "cfg_fork_raised_to_2_or_3")
 	mark(c.Cfg.Stat, "cfg_stat")
 	mark(c.Cfg.Free, "cfg_free")
 	mark(c.Cfg.AddrFee, "cfg_addrfee")
